@@ -15,7 +15,7 @@ from .. import gen as cgen
 
 PROP = 'C13'
 TIERS = {
-    'quick': {'runs': 4500, 'chunk': 15, 'wall_cap': 80, 'min_budget': 30},
+    'quick': {'runs': 6000, 'chunk': 15, 'wall_cap': 80, 'min_budget': 30},
     'thorough': {'runs': 150000, 'chunk': 40, 'wall_cap': 850, 'min_budget': 60},
 }
 RULE = ('case = seeded glitch-prone circuit + skewed delays + capacity fault plan + accumulation table (shared accumulators, zero/unequal weights, -1 rows) + 1-3 reuse batches with capture times '
@@ -25,7 +25,7 @@ REAL_VS_STUB = {'real': ['kyupy.wave_sim: _wave_eval, level_eval_cpu, wave_eval_
                 'stub': ['CUDA runtime -> SimCuda (order / interleave); atomic.add is one indivisible scheduler step']}
 ASSUMPTIONS = ['abuf is a 32-bit integer buffer; expected and actual sums are compared modulo 2**32 (weights up to 2**24+1 are generated)', 'sd = 0 (s[8]/s[9] under capture-time uncertainty are outside the statement)', '"unlimited capacity" = 64 entries per waveform; cases in which even that overflows are skipped for the indicator clause and counted',
                'accumulation tables are passed with len(lines)+3 rows (the documented len(lines) rows raise IndexError for gates without output line; recorded in DESIGN.md, outside this property)']
-EXPECTED_PROBES = ['simulator_restored', 'overflow_occurred', 'clear_flag_compared', 'flag_set_seen', 'shared_accumulator_in_level', 'interleave_run', 'capture_time_at_transition', 'k_lt_sims']
+EXPECTED_PROBES = ['nonmonotonic_output_captured', 'simulator_restored', 'overflow_occurred', 'clear_flag_compared', 'flag_set_seen', 'shared_accumulator_in_level', 'interleave_run', 'capture_time_at_transition', 'k_lt_sims']
 
 
 def gen(rng, tier, i):
@@ -41,7 +41,7 @@ def gen(rng, tier, i):
         r = rng.random()
         if r < 0.5: b['time_sel'] = [rng.randrange(64), rng.randrange(8), rng.randrange(8), rng.choice([0, 0, 0.25, -0.25, 1, -1])]
         elif r < 0.65: b['time'] = rng.choice([0, 2.5, 10, 1000, float(wsim.TMIN), float(wsim.TMAX)])
-    case = {'script': script, 'sims': sims, 'delays': wavegen.gen_delays(rng, skew=rng.choice(['wild', 'wild', 'mild'])), 'caps': caps, 'batches': batches,
+    case = {'script': script, 'sims': sims, 'delays': wavegen.gen_delays(rng, skew=rng.choice(['wild', 'wild', 'wild', 'wild', 'mild'])), 'caps': caps, 'batches': batches,
             'actrl': wavegen.gen_actrl(rng, p=0.8), 'knobs': {'c_reuse': rng.random() < 0.4, 'strip_forks': rng.random() < 0.4}, 'keep_caps': True}
     cfgs = [{'cls': 'cpu'}]
     cfgs.append({'cls': 'gpu', 'sched': wavegen.gen_order_sched(rng), 'block': wavegen.gen_block(rng)})
